@@ -1067,7 +1067,7 @@ def sym_cases(tier, rnd):
         for n in ((2, 3, 4) if pool != "chains" or tier != "quick" else (2, 3)):
             for f in sym_leaf_forms(n, atoms):
                 k += 1
-                if n < 4 or k % stride4 == 0:
+                if n < 4 or k % (stride4 if pool != "chains" else 4) == 0:
                     cases.append((f, shapes[k % len(shapes)]))
     n_exh = len(cases)
     shapes = sorted(SYM_SHAPES)
